@@ -1,6 +1,218 @@
 package checks
 
-import "verif/vlib"
+// C18, ROI part: "ROI span sets answer point-membership and mask queries consistently with their spans."
+// Every subset of a menu of 8 block spans (overlapping, adjacent, negative z / y / x, unsorted) is POSTed to a real roi
+// instance (8^3 blocks) in two orders; then GET roi, POST ptquery (both extreme voxels of every block of the universe) and
+// GET mask (whole universe, an unaligned box across the origin, a positive box) must agree with the set of blocks the
+// spans name. The reference is a map[block]bool and floor division.
 
-// c18ROI is filled in once the in-process server driver exists.
-func c18ROI(c *vlib.Ctx) {}
+import (
+	"encoding/json"
+	"fmt"
+	"sort"
+
+	"verif/vlib"
+	"verif/vsrv"
+)
+
+const c18B = 8 // roi block edge
+
+var c18SpanMenu = [][4]int{
+	{0, 0, 0, 1},    // z, y, x0, x1
+	{0, 0, 1, 2},    // overlaps the first
+	{0, 0, 3, 3},    // adjacent to the second
+	{0, 1, -1, 0},   // crosses x = 0
+	{-1, 0, 0, 0},   // negative z
+	{0, -1, -2, -1}, // negative y and x
+	{1, 0, 0, 0},
+	{0, 0, -3, -2}, // same row as the first, left of the origin
+}
+
+func fdiv(a, b int) int {
+	q := a / b
+	if a%b != 0 && (a < 0) != (b < 0) {
+		q--
+	}
+	return q
+}
+
+func c18ROI(c *vlib.Ctx) {
+	cleanup, ok := bootTemp(c, vsrv.Options{})
+	if !ok {
+		return
+	}
+	defer cleanup()
+	root, err := vsrv.NewRepo()
+	if err != nil {
+		c.Violate("harness:roi:repo", err.Error(), nil)
+		return
+	}
+	if err := vsrv.NewInstance(root, "roi", "r", map[string]string{"BlockSize": fmt.Sprintf("%d,%d,%d", c18B, c18B, c18B)}); err != nil {
+		c.Violate("harness:roi:instance", err.Error(), nil)
+		return
+	}
+	base := "node/" + root + "/r/"
+	type blk = [3]int // x,y,z
+	// universe of blocks queried
+	var uni []blk
+	for z := -2; z <= 2; z++ {
+		for y := -2; y <= 2; y++ {
+			for x := -4; x <= 4; x++ {
+				uni = append(uni, blk{x, y, z})
+			}
+		}
+	}
+	var pts [][3]int
+	for _, b := range uni {
+		pts = append(pts, [3]int{b[0] * c18B, b[1] * c18B, b[2] * c18B}, [3]int{b[0]*c18B + c18B - 1, b[1]*c18B + c18B - 1, b[2]*c18B + c18B - 1})
+	}
+	ptsJSON, _ := json.Marshal(pts)
+	type box struct {
+		name     string
+		size, of [3]int
+	}
+	boxes := []box{
+		{"universe", [3]int{9 * c18B, 5 * c18B, 5 * c18B}, [3]int{-4 * c18B, -2 * c18B, -2 * c18B}},
+		{"unaligned-across-origin", [3]int{13, 7, 11}, [3]int{-5, -3, -9}},
+		{"positive", [3]int{30, 9, 8}, [3]int{3, 2, 1}},
+	}
+	var requests int64
+	n := len(c18SpanMenu)
+	for mask := 0; mask < 1<<n; mask++ {
+		for order := 0; order < 2; order++ {
+			var spans [][4]int
+			for i := 0; i < n; i++ {
+				if mask>>i&1 == 1 {
+					spans = append(spans, c18SpanMenu[i])
+				}
+			}
+			if order == 1 {
+				if len(spans) < 2 {
+					continue
+				}
+				for i, j := 0, len(spans)-1; i < j; i, j = i+1, j-1 {
+					spans[i], spans[j] = spans[j], spans[i]
+				}
+			}
+			set := map[blk]bool{}
+			neg, overlap := false, false
+			for _, s := range spans {
+				for x := s[2]; x <= s[3]; x++ {
+					if set[blk{x, s[1], s[0]}] {
+						overlap = true
+					}
+					set[blk{x, s[1], s[0]}] = true
+				}
+				if s[0] < 0 || s[1] < 0 || s[2] < 0 {
+					neg = true
+				}
+			}
+			class := "nonneg-spans"
+			if neg {
+				class = "negative-spans"
+			}
+			if overlap {
+				class += ":overlapping"
+			}
+			body, _ := json.Marshal(spans)
+			if len(spans) == 0 {
+				body = []byte("[]")
+			}
+			rep := map[string]interface{}{"spans_zyx0x1": spans, "block_size": c18B}
+			r := vsrv.Post(base+"roi", body)
+			requests++
+			if !r.OK() {
+				c.Violate("roi:post:"+class+":refused", fmt.Sprintf("POST roi %s refused: %s", body, r), rep)
+				continue
+			}
+			c.Nontrivial(fmt.Sprintf("roi|%d|%d", mask, order))
+			// GET roi
+			g := vsrv.Get(base + "roi")
+			requests++
+			var back [][4]int
+			if err := json.Unmarshal(g.Body, &back); err != nil && len(set) > 0 {
+				c.Violate("roi:get:"+class+":unparsable", fmt.Sprintf("GET roi after POST %s: %s", body, g), rep)
+			} else {
+				got := map[blk]bool{}
+				for _, s := range back {
+					for x := s[2]; x <= s[3]; x++ {
+						got[blk{x, s[1], s[0]}] = true
+					}
+				}
+				c.Eval(int64(len(set) + 1))
+				if d := blkDiff(set, got); d != "" {
+					c.Violate("roi:get:"+class+":block-set", fmt.Sprintf("POST roi %s then GET roi returns %s: %s", body, trunc(string(g.Body), 200), d), rep)
+				}
+			}
+			// ptquery
+			q := vsrv.Post(base+"ptquery", ptsJSON)
+			requests++
+			var ans []bool
+			if err := json.Unmarshal(q.Body, &ans); err != nil || len(ans) != len(pts) {
+				c.Violate("roi:ptquery:"+class+":bad-answer", fmt.Sprintf("ptquery after POST roi %s: %s", body, q), rep)
+			} else {
+				for i, p := range pts {
+					want := set[blk{fdiv(p[0], c18B), fdiv(p[1], c18B), fdiv(p[2], c18B)}]
+					c.Eval(1)
+					if ans[i] != want {
+						pc := "nonneg-point"
+						if p[0] < 0 || p[1] < 0 || p[2] < 0 {
+							pc = "negative-point"
+						}
+						c.Violate("roi:ptquery:"+class+":"+pc, fmt.Sprintf("spans %s: ptquery(%v) = %v, the spans say %v", body, p, ans[i], want), rep)
+						break
+					}
+				}
+				c.Outcome(fmt.Sprintf("roi-pt-%d", len(set)))
+			}
+			// mask
+			for _, bx := range boxes {
+				m := vsrv.Get(fmt.Sprintf("%smask/0_1_2/%d_%d_%d/%d_%d_%d", base, bx.size[0], bx.size[1], bx.size[2], bx.of[0], bx.of[1], bx.of[2]))
+				requests++
+				nvox := bx.size[0] * bx.size[1] * bx.size[2]
+				if !m.OK() || len(m.Body) != nvox {
+					c.Violate("roi:mask:"+class+":"+bx.name+":bad-answer", fmt.Sprintf("spans %s: mask %v+%v: code %d, %d bytes (want %d): %s", body, bx.of, bx.size, m.Code, len(m.Body), nvox, trunc(string(m.Body), 120)), rep)
+					continue
+				}
+				i := 0
+			scan:
+				for z := 0; z < bx.size[2]; z++ {
+					for y := 0; y < bx.size[1]; y++ {
+						for x := 0; x < bx.size[0]; x++ {
+							vx, vy, vz := x+bx.of[0], y+bx.of[1], z+bx.of[2]
+							want := set[blk{fdiv(vx, c18B), fdiv(vy, c18B), fdiv(vz, c18B)}]
+							if (m.Body[i] != 0) != want {
+								c.Violate("roi:mask:"+class+":"+bx.name, fmt.Sprintf("spans %s: mask %v+%v voxel (%d,%d,%d) = %d, the spans say %v", body, bx.of, bx.size, vx, vy, vz, m.Body[i], want), rep)
+								break scan
+							}
+							i++
+						}
+					}
+				}
+				c.Eval(int64(nvox))
+			}
+		}
+	}
+	c.Set("roi_requests", requests)
+	c.Set("roi_span_sets", 2*(1<<n)-n-1)
+}
+
+func blkDiff(want, got map[[3]int]bool) string {
+	var miss, extra []string
+	for b := range want {
+		if !got[b] {
+			miss = append(miss, fmt.Sprint(b))
+		}
+	}
+	for b := range got {
+		if !want[b] {
+			extra = append(extra, fmt.Sprint(b))
+		}
+	}
+	if len(miss)+len(extra) == 0 {
+		return ""
+	}
+	sort.Strings(miss)
+	sort.Strings(extra)
+	return fmt.Sprintf("missing blocks (x,y,z) %v, extra %v", miss, extra)
+}
